@@ -165,6 +165,15 @@ def all_inputs(ctx):
     if p:
         ctx.violate(q, 'an iteration can proceed to the next input (or to success) without calling %s.verify: %s' % (iv, g.describe_path(p)), lp,
                     'after a change to the transaction an input that verified earlier (or failed) is not re-checked')
+    # a digest that cannot be built (exception handler inside the loop) fails the transaction: no way from a handler back to the loop
+    # head or to `return True` that avoids `return False`
+    falses0 = [n.id for n in g.nodes if n.kind == 'return' and _is_const(n.ast.value, False)]
+    for hn in [n for n in g.nodes if n.kind == 'handler']:
+        ph = g.path_avoiding(head + trues, via=falses0 + vcalls, start=hn.id, skip_exc=True)
+        ctx.saw('handler at line %s -> return False on every path: %s' % (getattr(hn.ast, 'lineno', '?'), ph is None))
+        if ph is not None:
+            ctx.violate(q, 'when the digest of an input cannot be built the loop goes on (%s) instead of failing the transaction' % g.describe_path(ph), hn.ast,
+                        'a segwit input whose amount is 0 / unknown is skipped: verify() is True although that input was never checked')
     # result handling: not verified -> return False
     for t in trues:
         gs = guards_of(g, t)
